@@ -40,7 +40,17 @@ def use_repo():
     here = os.path.realpath(os.path.dirname(os.path.dirname(hszinc.__file__)))
     if here != os.path.realpath(REPO):
         raise MachineryError('hszinc imported from %s, expected %s' % (here, REPO))
+    # hszinc's debug print()s (grid_filter.py, zincparser.py) are silenced through a module-global
+    # shadow of `print` -- no change to the repository
+    import hszinc.grid_filter
+    import hszinc.zincparser
+    hszinc.grid_filter.print = _quiet
+    hszinc.zincparser.print = _quiet
     return hszinc
+
+
+def _quiet(*a, **k):
+    return None
 
 
 class Work(object):
@@ -73,6 +83,8 @@ class TlcResult(object):
         self.generated = int(m[-1][0]) if m else 0
         self.distinct = int(m[-1][1]) if m else 0
         self.completed = 'Model checking completed' in out or 'Finished computing initial states' in out and rc == 0
+        m = re.search(r'Finished computing initial states: (\d+) distinct', out)
+        self.initial = int(m.group(1)) if m else 0
         self.invariant_violated = None
         m = re.search(r'Invariant (\w+) is violated', out)
         if m:
@@ -111,12 +123,14 @@ class TlcResult(object):
 
 
 def run_tlc(work, module, cfg, workers=None, env=None, timeout=3600, simulate=None, depth=None,
-            coverage=False, deque=False, xmx='4g', extra=None, seed_arg=None):
+            coverage=False, deque=False, xmx='4g', extra=None, seed_arg=None, lib=None):
     """Run TLC on spec/<module>.tla with spec/<cfg>.  Returns TlcResult.  Raises MachineryError on
     parse/semantic errors or crashes (not on invariant violations, which the caller interprets)."""
     meta = work.path('meta-%s' % uuid.uuid4().hex[:8])
     os.makedirs(meta, exist_ok=True)
     cmd = ['java', '-XX:+UseParallelGC', '-Xmx' + xmx, '-Xss16m']
+    if lib:
+        cmd.append('-DTLA-Library=' + lib)
     if deque:
         cmd.append('-Dtlc2.tool.queue.IStateQueue=StateDeque')
     cmd += ['-cp', JAVA_CP, 'tlc2.TLC', '-metadir', meta, '-noGenerateSpecTE',
@@ -159,7 +173,7 @@ def run_tlc(work, module, cfg, workers=None, env=None, timeout=3600, simulate=No
 
 
 def sany(module):
-    p = subprocess.run(['java', '-cp', JAVA_CP, 'tla2sany.SANY', module], cwd=SPEC,
+    p = subprocess.run(['java', '-DTLA-Library=' + os.path.join(SPEC, 'stubs'), '-cp', JAVA_CP, 'tla2sany.SANY', module], cwd=SPEC,
                        stdout=subprocess.PIPE, stderr=subprocess.STDOUT)
     out = p.stdout.decode('utf-8', 'replace')
     ok = p.returncode == 0 and 'Semantic errors' not in out and 'Parse Error' not in out \
@@ -300,3 +314,29 @@ def cps(s):
 
 def uncps(a):
     return ''.join(chr(c) for c in a)
+
+
+def tla_lit(x):
+    """Python value -> TLA+ literal (ints, bools, ASCII strings, lists -> sequences, sets, dicts -> records)."""
+    if isinstance(x, bool):
+        return 'TRUE' if x else 'FALSE'
+    if isinstance(x, int):
+        return str(x) if x >= 0 else '(%d)' % x
+    if isinstance(x, str):
+        return '"%s"' % x.replace('\\', '\\\\').replace('"', '\\"')
+    if isinstance(x, (list, tuple)):
+        return '<<' + ', '.join(tla_lit(e) for e in x) + '>>'
+    if isinstance(x, (set, frozenset)):
+        return '{' + ', '.join(tla_lit(e) for e in sorted(x)) + '}'
+    if isinstance(x, dict):
+        return '[' + ', '.join('%s |-> %s' % (k, tla_lit(v)) for k, v in x.items()) + ']'
+    raise MachineryError('no TLA+ literal for %r' % (x,))
+
+
+def write_consts(work, module, defs, extends='Naturals, Sequences'):
+    """Generate <work>/<module>.tla with literal definitions; use run_tlc(..., lib=work.dir)."""
+    with open(work.path(module + '.tla'), 'w') as f:
+        f.write('---- MODULE %s ----\nEXTENDS %s\n' % (module, extends))
+        for k, v in defs.items():
+            f.write('%s == %s\n' % (k, tla_lit(v)))
+        f.write('====\n')
